@@ -10,9 +10,16 @@
       (1 text)          -> (1 jvalue) | (0)          json_parse (the specification / judge)
       (2 module)        -> (1 text) | (0)            transpile_nofix (code as found)
       (3 module text)   -> 0|1                       judge
-      (4 module)        -> (wf jsonable jvalue known) wf_module, all chunk_jsonable, module_obj, Known_C18 *)
+      (4 module)        -> (wf jsonable jvalue known) wf_module, all chunk_jsonable, module_obj, Known_C18
+    C17 (litkind: 0 Str with value s | 1 Bool | 2 Int | 3 Nat | 4 Float | 5 other; ename := (public base proc line col)):
+      (10 tok litkind s) -> text                     transpile_lit
+      (11 text)          -> (1 s) | (0)              py_str_parse (one double-quoted Python short string literal)
+      (12 text)          -> (1 s) | (0)              py_lit_parse (the call Str(<literal>))
+      (13 public name (pyname)? line col) -> text    transpile_name
+      (14 (ename..))     -> 0|1                      Known_C17_mangle
+      (15 tok litkind s) -> text                     transpile_lit_nofix *)
 From Coq Require Import ZArith List Bool.
-From ErgV Require Import Common.Sx Emit.Text Emit.Json Emit.JsonSpec.
+From ErgV Require Import Common.Sx Emit.Text Emit.Json Emit.JsonSpec Emit.Py Emit.PySpec.
 Import ListNotations.
 Open Scope Z_scope.
 
@@ -82,9 +89,26 @@ Definition run_json (mode : Z) (x : sx) : sx :=
        SL [sx_bool (wf_module m); sx_bool (forallb chunk_jsonable m); enc_jvalue (JObj (module_obj m));
            sx_bool (Known_C18 m)].
 
+Definition dec_litv (k : Z) (s : text) : litv :=
+  if k =? 0 then LStr s else if k =? 1 then LBool else if k =? 2 then LInt else if k =? 3 then LNat
+  else if k =? 4 then LFloat else LOtherLit.
+Definition dec_ename (x : sx) : ename :=
+  {| e_public := sx_to_bool (sx_nth x 0); e_base := sx_zs (sx_nth x 1); e_proc := sx_to_bool (sx_nth x 2);
+     e_line := sx_z (sx_nth x 3); e_col := sx_z (sx_nth x 4) |}.
+
+Definition run_py (mode : Z) (x : sx) : sx :=
+  if mode =? 10 then sx_of_zs (transpile_lit (sx_zs (sx_nth x 1)) (dec_litv (sx_z (sx_nth x 2)) (sx_zs (sx_nth x 3))))
+  else if mode =? 11 then enc_otext (py_str_parse (sx_zs (sx_nth x 1)))
+  else if mode =? 12 then enc_otext (py_lit_parse (sx_zs (sx_nth x 1)))
+  else if mode =? 13 then
+    sx_of_zs (transpile_name (sx_to_bool (sx_nth x 1)) (sx_zs (sx_nth x 2)) (sx_opt sx_zs (sx_nth x 3))
+                             (sx_z (sx_nth x 4)) (sx_z (sx_nth x 5)))
+  else if mode =? 14 then sx_bool (Known_C17_mangle (map dec_ename (sx_l (sx_nth x 1))))
+  else sx_of_zs (transpile_lit_nofix (sx_zs (sx_nth x 1)) (dec_litv (sx_z (sx_nth x 2)) (sx_zs (sx_nth x 3)))).
+
 Definition run (x : sx) : sx :=
   let mode := sx_z (sx_nth x 0) in
-  run_json mode x.
+  if mode <? 10 then run_json mode x else run_py mode x.
 
 Require Extraction.
 Require Import ExtrOcamlBasic.
